@@ -3,7 +3,7 @@ From Coq Require Import ZArith NArith List Bool String.
 From Valida Require Import Py Lang Defs Cond Dsl Check DocSem Path Cast Str SpecDefs RuleDefs RuleTerms Rule Spec SpecIO SpecSpell Eq Inst RunSpec.
 Import ListNotations.
 Local Open Scope string_scope.
-From Valida.Proofs Require Import Tie C02Proof RuleProof C09Proof C11Proof.
+From Valida.Proofs Require Import Tie C02Proof RuleProof C09Proof C11Proof C11EscProof.
 
 (* For every and/or/xor tree of typed DSL leaves in the fragment [tree_in_c11] (all 7 classes x 32
    constructors; JSON-pure well-formed arguments, or types where the class / callable asks for types;
@@ -43,3 +43,18 @@ Print Assumptions C11_single_leaf.
 (* the fragment is inhabited by a nested tree with a mapping argument *)
 Theorem C11_fragment_inhabited : tree_in_c11 ex11_tree = true.
 Proof. exact ex11_in. Qed.
+
+(* The same round trip on the larger fragment [tree_in_c11e], which admits literal mapping arguments (and items_contain
+   names) with "path" in their keys: the serialiser escapes them, the parser un-escapes them in place, and the rebuilt
+   condition is again EXACTLY the one serialised.  [tree_in_c11] is included, with the same written data. *)
+Theorem C11_tree_with_escaped_mappings : forall (t : qtree) (c : cond pyval),
+  tree_in_c11e t = true -> C02Proof.build_expect (qnorm t) = Ok c ->
+  let c1 := cmapL c in
+  cond1_to_json T X c1 = Ok (tree_json_e (qnorm t)) /\
+  json_pure (tree_json_e (qnorm t)) = true /\
+  (exists tm : dslc arg1, cond1_from_spec T X (tree_json_e (qnorm t)) = Ok (tm, c1)) /\
+  cond1_eqb T c1 c1 = true.
+Proof. exact C11E_roundtrip_eq. Qed.
+Theorem C11_fragment_included : forall t : qtree, tree_in_c11 t = true -> tree_in_c11e t = true /\ tree_json_e t = tree_json t.
+Proof. exact tree_c11_in_c11e. Qed.
+Print Assumptions C11_tree_with_escaped_mappings. Print Assumptions C11_fragment_included.
